@@ -21,6 +21,7 @@ def companions():
         "LocalStoreFSMC.tla": {"FsConf.tla": fsconf.module("crash_first_keep", "atomic")},
         "FsTrace.tla": {},
         "SigTrace.tla": {},
+        "EvalProto.tla": {},
         "StoreCodec.tla": {"CodecConf.tla": codecconf()},
         "StoreDbfs.tla": {"DbfsConf.tla": dbfsconf()},
         "StoreViews.tla": {"ViewsConf.tla": viewsconf()},
